@@ -54,9 +54,9 @@ def _tokenize(P: Project) -> FunctionInfo:
 def _loop(f: FunctionInfo):
     loops = [n for n in walk_no_nested(f.node) if isinstance(n, ast.For)]
     for lp in loops:
-        if sym.pm("enumerate(formula)", lp.iter) is not None and isinstance(lp.target, ast.Tuple) and len(lp.target.elts) == 2 \
+        if sym.pm("enumerate(ANY_s)", lp.iter) is not None and isinstance(lp.target, ast.Tuple) and len(lp.target.elts) == 2 \
                 and all(isinstance(e, ast.Name) for e in lp.target.elts):
-            return lp, lp.target.elts[0].id, lp.target.elts[1].id
+            return lp, lp.target.elts[0].id, lp.target.elts[1].id   # (that it runs over `formula` itself is obligation C15.R8)
     raise AnalysisError("C15: the character loop `for i, char in enumerate(formula)` of tokenize() was not found")
 
 
@@ -440,6 +440,16 @@ def r7(ctx):
 
 def r8(ctx):
     P = ctx.project
+    tf = _tokenize(P)
+    lp_, _i, _c = _loop(tf)
+    src = param_names(tf.node)[0]
+    ctx.look()
+    ctx.check(sym.pm(f"enumerate({src})", lp_.iter) is not None and not any(
+        isinstance(st, (ast.Assign, ast.AugAssign)) and any(isinstance(t, ast.Name) and t.id == src for t in (st.targets if isinstance(st, ast.Assign) else [st.target]))
+        for st in walk_no_nested(tf.node)), "C15.R8", "character positions index the formula text the tokens keep as their source", tf.module.line(lp_),
+        ctx.construct(tf, text="positions index the source"),
+        f"the character loop runs over `{norm(lp_.iter)}` while every token records `{src}` as its source: stripping or otherwise editing the text that is "
+        f"scanned shifts every span against the source the spans refer to")
     T = "formulaic.parser.types.token.Token"
     gs = P.method(T, "get_source_context")
     n = 0
